@@ -96,7 +96,7 @@ Example C06_duplicate_fixed :
   let s := run std_cfg ex_s0 dup_history in
   known_C06_dup s = true /\ chan s = [] /\
   exists n, chan (fst (step std_cfg s Notify)) = [n] /\ nt_ip n = IP4 3232235521 /\ nt_online n = false /\
-            n_mdns (nt_names n) = 2.
+            n_mdns (nt_names n) = named 2.
 Proof. exact dup_fixed. Qed.
 Print Assumptions C06_duplicate_fixed.
 
@@ -156,6 +156,31 @@ Theorem C06_name_change_owed : forall c r u x,
 Proof. exact names_change_owed. Qed.
 Print Assumptions C06_name_change_owed.
 
+(* ---- the four attributes of a learned name (Name, Model, OS, Manufacturer) ----
+   [tracked] in [C06_contents] is equality of the whole notification with toNotification of the tracked state: all four
+   attributes of each of the five names.  The model's NameEntry.Merge and the reference's attribute-wise [learn]
+   (announced value where not empty, else the previous one; changed iff the result differs) agree: *)
+Theorem C06_merge_is_learn : forall old new, merge old new = (learn old new, learns old new).
+Proof. exact merge_learn. Qed.
+Print Assumptions C06_merge_is_learn.
+
+(* an identical repeat is quiet: after an announcement through any of the five Update*Name methods, the same entry
+   again changes nothing in the reference and owes nothing, whatever attributes it carries *)
+Theorem C06_name_repeat_quiet : forall c r kd k e,
+  let r1 := rnext c r (UName kd k e) in
+  name_changes r1 kd k e = false /\ rnext c r1 (UName kd k e) = r1 /\ forall x, due c r1 (UName kd k e) x = [].
+Proof. exact name_repeat_quiet. Qed.
+Print Assumptions C06_name_repeat_quiet.
+
+(* the same for DHCPv4Update: the repeated update teaches nothing and owes nothing further *)
+Theorem C06_update_repeat_quiet : forall c r m k e now now',
+  is_valid k && negb (is_unspecified k) = true ->
+  let r1 := rnext c r (UUpdate m k e now) in
+  upd_changed r1 m k e = false /\ r_owed (rnext c r1 (UUpdate m k e now')) = r_owed r1 /\
+  forall x, r_names (rnext c r1 (UUpdate m k e now')) x = r_names r1 x.
+Proof. exact update_repeat_quiet. Qed.
+Print Assumptions C06_update_repeat_quiet.
+
 (* ---- non-vacuity ---- *)
 Example C06_history_admissible : units_ok std_cfg ex_s0 ex_units.
 Proof. exact ex_units_ok. Qed.
@@ -168,8 +193,13 @@ Example C06_history_emissions :
     [(IP4 3232235521, false); (IP4 3232235522, true)];          (* IP change: offline before online *)
     [(IP4 3232235522, true)];                                   (* re-binding *)
     [];                                                         (* Capture *)
-    [];                                                         (* a learned name: nothing yet *)
-    [(IP4 3232235522, true)];                                   (* ... delivered with the address's next frame *)
+    [];                                                         (* a learned name (Name, OS, Manufacturer at once): nothing yet *)
+    [];                                                         (* the same announcement again *)
+    [(IP4 3232235522, true)];                                   (* ... delivered ONCE with the address's next frame *)
+    [];                                                         (* identical repeat after delivery *)
+    [];                                                         (* ... and the next frame is quiet *)
+    [];                                                         (* Model learned (OS repeated, Name/Manufacturer not announced) *)
+    [(IP4 3232235522, true)];                                   (* ... delivered *)
     [(IP4 3232235522, false); (IP4 3232235531, false)];         (* ageing (the router was never announced) *)
     [(IP6 338288524927261089654018896841347694593, true)];      (* router's link-local address first seen *)
     [(IP4 3232235523, true)];                                   (* a client first seen on .3 *)
@@ -184,9 +214,9 @@ Print Assumptions C06_history_emissions.
 Example C06_names_reading :
   let s := run std_cfg ex_s0
       [ ex_rx4 ex_mac1 3232235521 10; Notify; Drain;
-        NameUpdate KLlmnr (IP4 3232235521) 7; NameUpdate KMdns (IP4 3232235521) 8;
+        NameUpdate KLlmnr (IP4 3232235521) (named 7); NameUpdate KMdns (IP4 3232235521) ex_ent;
         ex_rx4 ex_mac1 3232235522 20; Notify ] in
   map (fun n => (nt_ip n, n_llmnr (nt_names n), n_mdns (nt_names n))) (chan s) =
-  [ (IP4 3232235521, 7, 8); (IP4 3232235522, 0, 8) ].
+  [ (IP4 3232235521, named 7, ex_ent); (IP4 3232235522, nent0, ex_ent) ].
 Proof. exact ex_llmnr_asymmetry. Qed.
 Print Assumptions C06_names_reading.
